@@ -1,2 +1,87 @@
-import Pakhi.Model.Interp
-import Pakhi.Model.Parser
+/-
+  C02 — an if / else-if / else chain runs exactly one branch, in any context.
+
+  Theorems about the flat machine on `flatten` of ARBITRARY structured code, with the rest of the
+  machine state (scopes, heap, enclosing loops, the flags below the top — i.e. every execution
+  history) universally quantified:
+  * a `যদি` with a true condition pushes `true` and enters its block, with a false condition it
+    skips exactly its block — whatever is nested inside — and leaves `false` on top only when an
+    `অথবা` follows, a non-boolean condition is a runtime error at the condition's line;
+  * an `অথবা` whose chain has not run yet (top flag `false`) pops the flag and enters the branch;
+  * `rest_of_chain_skipped`: once a branch has run, ALL remaining branches are skipped without
+    evaluating any condition, execution resumes after the whole chain and the flag is popped exactly
+    once — this is the statement the fix F11 made true (the pinned code popped twice).
+  What is not closed yet is the composition over the *execution of the taken block* (it may leak
+  `true` flags, which the theorems above tolerate because they only inspect the top flag after the
+  block's own pushes are gone): that is the refinement `flat_refines_struct` (DESIGN.md §4 C02),
+  decided meanwhile by the exhaustive chain enumeration of the C02 check against the structured semantics.
+-/
+import Pakhi.Lemmas.Control
+
+namespace Pakhi
+namespace C02
+
+/-- a true condition: `true` is pushed and the block is entered -/
+theorem if_true (prog : List Stmt) (f : Nat) (c : Expr) (m : Meta) (rest : List Stmt) (s s1 : St)
+    (hc : eval prog f rest c s = .ok (.bool true, s1)) :
+    exec prog (f+1) (.if c m :: rest) s = .ok (rest, { s1 with flags := true :: s1.flags }) := by
+  simp [exec, hc]
+
+/-- a false condition: exactly the block is skipped; `false` stays on top only if an `অথবা` follows -/
+theorem if_false (prog : List Stmt) (f : Nat) (c : Expr) (m : Meta) (body : SBlock) (r : List Stmt) (s s1 : St)
+    (hb : body.WF) (hc : eval prog f (body.flatten ++ r) c s = .ok (.bool false, s1)) :
+    exec prog (f+1) (.if c m :: (body.flatten ++ r)) s =
+      (match r with
+       | .else _ :: _ => .ok (r, { s1 with flags := false :: s1.flags })
+       | _ => .ok (r, s1)) := by
+  have hs : skipBlock (body.flatten ++ r) 0 = .ok r := skipBlock_whole_block body r hb
+  simp only [exec, hc, skipBlockInIf, hs]
+  cases r with
+  | nil => simp [Res.tagOut]
+  | cons st t => cases st <;> simp [Res.tagOut]
+
+/-- a non-boolean condition is a runtime error located at the condition -/
+theorem if_non_boolean (prog : List Stmt) (f : Nat) (c : Expr) (m : Meta) (rest : List Stmt) (s s1 : St) (v : Val)
+    (hc : eval prog f rest c s = .ok (v, s1)) (hv : ∀ b, v ≠ .bool b) :
+    ∃ e, exec prog (f+1) (.if c m :: rest) s = .err e ∧ e.cls = .runtime ∧ e.line = c.meta.line ∧ e.file = c.meta.file := by
+  cases v <;> first | exact absurd rfl (hv _) | simp [exec, hc, metaErr, mkErr, Res.tagOut]
+
+/-- no branch has run yet (top flag `false`): the `অথবা` pops the flag and enters its branch, which is
+    a block for a final else and a `যদি` for an else-if (whose condition is then evaluated: in order) -/
+theorem else_enters (prog : List Stmt) (f : Nat) (em : Meta) (rest : List Stmt) (s : St) (fl : List Bool)
+    (hf : s.flags = false :: fl) :
+    exec prog (f+1) (.else em :: rest) s = .ok (rest, { s with flags := fl }) := by
+  simp [exec, hf]
+
+/-- a branch has run (top flag `true`): the branch is skipped, conditions are not evaluated -/
+theorem else_skips (prog : List Stmt) (f : Nat) (em : Meta) (body : SBlock) (r : List Stmt) (s : St) (fl : List Bool)
+    (hb : body.WF) (hf : s.flags = true :: fl) :
+    (∀ c m, exec prog (f+1) (.else em :: .if c m :: (body.flatten ++ r)) s =
+      (match r with | .else _ :: _ => .ok (r, s) | _ => .ok (r, { s with flags := fl }))) ∧
+    exec prog (f+1) (.else em :: (body.flatten ++ r)) s =
+      (match r with | .else _ :: _ => .ok (r, s) | _ => .ok (r, { s with flags := fl })) :=
+  ⟨fun c m => else_skips_elseIf prog f em m c body r s fl hb hf, else_skips_else prog f em body r s fl hb hf⟩
+
+/-- after a taken branch the rest of the chain is skipped as a whole, for every chain length and every
+    content of the branches, in any state -/
+theorem rest_of_chain_skipped (prog : List Stmt) (f : Nat) (tail : STail) (r : List Stmt) (s : St) (fl : List Bool)
+    (hw : tail.WF) (hr : notElse r) (hf : s.flags = true :: fl) :
+    ∃ n, execN prog (f+1) n (tail.flatten ++ r) s = .ok (r, afterTail tail s fl) :=
+  Pakhi.rest_of_chain_skipped prog f tail r s fl hw hr hf
+
+/-- a skipped block is skipped whole, whatever chains, loops, blocks and function definitions it contains -/
+theorem skipped_block_is_skipped_whole (b : SBlock) (r : List Stmt) (h : b.WF) : skipBlock (b.flatten ++ r) 0 = .ok r :=
+  skipBlock_whole_block b r h
+
+/-- an `অথবা` with no pending conditional is a located runtime error (it used to be an assertion failure) -/
+theorem stray_else (prog : List Stmt) (f : Nat) (em : Meta) (rest : List Stmt) (s : St) (hf : s.flags = []) :
+    ∃ e, exec prog (f+1) (.else em :: rest) s = .err e ∧ e.cls = .runtime ∧ e.line = em.line := by
+  simp [exec, hf, stmtErr, mkErr, Res.tagOut, Stmt.meta]
+
+/-- non-vacuity: the nested chain on which the pinned code panicked is an instance
+    (`যদি সত্য { যদি সত্য {A} অথবা {C} } অথবা {D}`: after the inner chain the outer tail is skipped) -/
+example : (STail.else ⟨1, []⟩ (.mk ⟨1, []⟩ (.cons (.simple (.print (.str ['D'] ⟨1, []⟩) ⟨1, []⟩)) .nil) ⟨1, []⟩)).WF ∧ notElse [] := by
+  simp [STail.WF, SBlock.WF, SList.WF, SStmt.WF, Stmt.isSimple, notElse]
+
+end C02
+end Pakhi
